@@ -7,11 +7,14 @@
 package hostile
 
 import (
+	"context"
 	"errors"
 	"fmt"
 	"io"
+	"os"
 	"reflect"
 	"strings"
+	"syscall"
 
 	"github.com/ChrisTrenkamp/xsel"
 
@@ -99,12 +102,22 @@ type hostileReader struct {
 	off   int
 	mode  int
 	reads int
+	err   error
 }
 
 var errHostile = errors.New("hostile: injected failure")
 
+// the error values a failing reader may return: sentinel errors that callers
+// like to special-case, wrapped and unwrapped
+var hostileErrs = []error{errHostile, io.ErrUnexpectedEOF, fmt.Errorf("read body: %w", io.ErrUnexpectedEOF), io.ErrClosedPipe, io.ErrNoProgress,
+	fmt.Errorf("wrapped: %w", io.EOF), os.ErrDeadlineExceeded, context.DeadlineExceeded, context.Canceled, syscall.EINTR, syscall.ECONNRESET, io.ErrShortBuffer}
+
 func (r *hostileReader) Read(p []byte) (int, error) {
 	r.reads++
+	errHostile := r.err
+	if errHostile == nil {
+		errHostile = hostileErrs[0]
+	}
 	if r.reads > 100000 {
 		return 0, errHostile
 	}
@@ -164,7 +177,7 @@ func streams(t *simkit.Tape, o *simkit.Outcome, g guard) {
 		o.Fault(fmt.Sprintf("hostile-stream:%s:reader-mode-%d", kind, mode))
 		// each reader gets the bytes regardless of their nominal kind
 		for _, rk := range []string{kind, []string{"xml", "json", "html"}[t.Draw(3)]} {
-			rd := &hostileReader{t: t, data: data, mode: mode}
+			rd := &hostileReader{t: t, data: data, mode: mode, err: hostileErrs[t.Draw(len(hostileErrs))]}
 			var c any
 			var err error
 			var ok bool
@@ -459,6 +472,31 @@ func targets() []struct {
 		{"*complex/uintptr fields", func() any { return &tComplex{} }},
 		{"*[]struct value elems", func() any { return &[]tTagged{} }},
 		{"*[]*unexported", func() any { return &[]*tUnexported{} }},
+		{"*anonymous struct (3 fields)", func() any {
+			return &struct {
+				A string `xsel:"name()"`
+				B string `xsel:"."`
+				C int    `xsel:"count(*)"`
+			}{}
+		}},
+		{"*anonymous struct (1 field)", func() any {
+			return &struct {
+				A float64 `xsel:"count(node())"`
+			}{}
+		}},
+		{"*local type T (2 fields)", func() any {
+			type T struct {
+				A string `xsel:"name()"`
+				B string `xsel:"."`
+			}
+			return &T{}
+		}},
+		{"*local type T (1 field)", func() any {
+			type T struct {
+				A string `xsel:"."`
+			}
+			return &T{}
+		}},
 		{"reflect.Value", func() any { return reflect.ValueOf(&tTagged{}) }},
 		{"unsafe-ish uintptr", func() any { return uintptr(0) }},
 	}
